@@ -140,7 +140,8 @@ func (block *CBlock) updateTop(changedCandidates []*Candidate) {
 }
 
 func (block *CBlock) Ranking(voteLogs types.ChangeLogSlice) {
-	if len(voteLogs) <= 0 {
+	// a candidate that had no votes leaves no vote log when it unregisters, but it has to leave the top list
+	if len(voteLogs) <= 0 && len(block.collectUnregisters()) <= 0 {
 		return
 	}
 	// collect changed candidates
